@@ -122,14 +122,15 @@ def omitPEnd : List HTok → Bool
   | .startTag n _ :: _ => has (tagTraits n) C03Tables.omitPTag
   | _ :: _ => false
 
-/-- `</optgroup>` look-ahead: skip every text token; omit unless an `option` tag follows -/
+/-- `</optgroup>` look-ahead: skip every text token and comment; omit at the end of the input, before an end tag
+    other than `</option>`, or before another `<optgroup>` -/
 def omitOptgroupEnd : List HTok → Bool
   | [] => true
   | .text _ _ :: r => omitOptgroupEnd r
   | .comment _ _ :: r => omitOptgroupEnd r
   | .endTag n _ :: _ => !hashIs n "option"
-  | .startTag n _ :: _ => !hashIs n "option"
-  | _ :: _ => true
+  | .startTag n _ :: _ => hashIs n "optgroup"
+  | _ :: _ => false
 
 def alwaysOmitEnd : List String :=
   ["thead", "tbody", "tfoot", "tr", "th", "td", "option", "dd", "dt", "li", "rb", "rt", "rtc", "rp"]
@@ -274,6 +275,12 @@ def specialAttrs (ext : Ext) (tag : List Char) (as : List AttrSt) : Except Strin
     | _, _ => .ok as
   else .ok as
 
+
+/-- the special attribute handling under the options: the `input` case is part of the default-value
+removal, `else if t.Hash == Input && !o.KeepDefaultAttrVals` -/
+def specialAttrsOpt (o : Opts) (ext : Ext) (tag : List Char) (as : List AttrSt) : Except String (List AttrSt) :=
+  if hashIs tag "input" && o.keepDefaultAttrVals then .ok as else specialAttrs ext tag as
+
 def isXmlAttr (hash : List Char) : Bool :=
   ["vocab", "typeof", "property", "resource", "prefix", "content", "about", "rev", "datatype", "inlist"].any (hashIs hash)
 
@@ -399,6 +406,7 @@ structure St where
   dropText : Bool := false                 -- the next token is skipped if it is a text token without template
   dropEnd : Bool := false                  -- the next token (the end tag of an empty script/style) is skipped
   afterPre : Nat := 0                      -- `afterPreStart`: 1 right after `<pre>`, 2 and a comment was passed since
+  docOpen : List (List Char) := []         -- `writtenDocTags` (KeepEndTags): html/head/body/colgroup start tags written, not closed yet
   deriving Repr
 
 def isSpecialComment (text : List Char) : Bool :=
@@ -455,8 +463,11 @@ def textNormal (keepWs omitSpace : Bool) (data : List Char) (rest : List HTok) :
 /-- the end-tag branch (`st0`: state with the skip flag already cleared) -/
 def endStep (o : Opts) (st0 : St) (name data : List Char) (rest : List HTok) : St × List Char :=
   let st1 := { st0 with rawTag := [] }
-  let st3 := if hashIs name "pre" then { st1 with inPre := false } else st1
-  if isDroppedTag o name then (st3, [])
+  let st2 := if hashIs name "pre" then { st1 with inPre := false } else st1
+  -- with KeepEndTags the end tag of html/head/body/colgroup stays when its start tag was written
+  let keepEnd := o.keepEndTags && isDroppedTag o name && st0.docOpen.contains name
+  let st3 := { st2 with docOpen := if keepEnd then st0.docOpen.erase name else st0.docOpen }
+  if isDroppedTag o name && !keepEnd then (st3, [])
   else
     let dt := hashIs name "option" || hashIs name "optgroup"
     if omitEndTag o name rest then
@@ -480,7 +491,8 @@ def startPre (st0 : St) (name : List Char) (attrs : List Attr) : St :=
 
 /-- start tag, state after the tag was written (`mt`: value of a `type` attribute of a raw-text element) -/
 def startPost (o : Opts) (st3 : St) (name : List Char) (rest : List HTok) (mt : Option (List Char)) : St :=
-  let st4 := { st3 with omitSpace := updOmitSpace o name st3.omitSpace }
+  let st4 := { st3 with omitSpace := updOmitSpace o name st3.omitSpace,
+                        docOpen := if o.keepEndTags && isDroppedTag o name then name :: st3.docOpen else st3.docOpen }
   let st5 := match mt with | some m => { st4 with rawMediatype := m } | none => st4
   let st6 := { st5 with dropText := hashIs name "select" || hashIs name "optgroup" }
   -- the look at the next token happens after a text token was skipped (select/optgroup)
@@ -497,7 +509,8 @@ def step (o : Opts) (ext : Ext) (sub : Sub) (st : St) (t : HTok) (rest : List HT
   | .doctype => .ok (st0, s "<!doctype html>")
   | .comment data text => do
     let out ← commentOut o ext data text
-    .ok ({ st0 with afterPre := if 0 < st.afterPre && !o.keepComments then 2 else 0 }, out)
+    -- only a comment that really disappears can put the newline of the text right behind `<pre>`
+    .ok ({ st0 with afterPre := if 0 < st.afterPre && out.isEmpty then 2 else 0 }, out)
   | .svg data => .ok ({ st0 with omitSpace := false }, callSub sub (s "image/svg+xml") true data)
   | .math data => .ok ({ st0 with omitSpace := false }, callSub sub (s "application/mathml+xml") false data)
   | .template data => .ok ({ st0 with omitSpace := false }, data)
@@ -520,7 +533,7 @@ def step (o : Opts) (ext : Ext) (sub : Sub) (st : St) (t : HTok) (rest : List HT
       let st3 := startPre st0 name attrs
       if attrs.isEmpty && !(hashIs name "body" && keepBody rest) && isDroppedTag o name then .ok (st3, [])
       else do
-        let as0 ← specialAttrs ext name (attrs.map AttrSt.ofAttr)
+        let as0 ← specialAttrsOpt o ext name (attrs.map AttrSt.ofAttr)
         let (aout, mt) ← writeAttrs o ext sub name st3.rawTag as0 none
         .ok (startPost o st3 name rest mt, '<' :: name ++ aout ++ ['>'])
 
